@@ -461,7 +461,7 @@ def _systems(run, tier, seed, shard, deadline):
 
 def _random(run, tier, seed, shard, deadline):
     quick = tier == 'quick'
-    n = 700 if quick else 8000
+    n = 700 if quick else 40000
     idx = shard_slice(range(n), shard)
     for i in idx:
         if time.time() > deadline or run.too_many:
